@@ -11,7 +11,8 @@ from fractions import Fraction
 import fw
 from fw import Corr, Failure, cz, cq
 
-MODEL_TARGETS = ['model/ListAlg.vo', 'model/Lift.vo', 'gen/Gen_maps.vo', 'proofs/C15_lift_maps.vo']
+MODEL_TARGETS = ['model/ListAlg.vo', 'model/Lift.vo', 'gen/Gen_maps.vo', 'proofs/C15_lift_maps.vo',
+                 'proofs/C15_lift_bigstep.vo']
 TRANSLATED = ['Gen_maps']
 SIG_F8 = 'C15:narop_function_composed_args'
 SIG_RAW = 'C15:scbuiltin_raw_selector'
